@@ -323,3 +323,39 @@ Proof.
     destruct (err_eqb e EExplicit); [discriminate|]. destruct (is_construct_error e); [|discriminate].
     intros E. injection E as _ <-. reflexivity.
 Qed.
+
+(* ---- Union: every member is parsed from the same place, and without a selector the stream is left untouched ---- *)
+Lemma union_loop_restores cs : forall i cx p acc fw s kv cx' fw' s',
+  iseekable s = true -> union_loop parse cs i cx p acc fw s = Ok (kv, cx', fw', s') -> s' = s.
+Proof.
+  induction cs as [|c t IH]; intros i cx p acc fw s kv cx' fw' s' Hk; cbn [union_loop].
+  - intros E. injection E as _ _ _ <-. reflexivity.
+  - pose proof (parse_frame c cx p s s (sb_refl s)) as Hf. destruct (parse c cx p s) as [[v s1]|e q]; [cbn [bind]|discriminate].
+    cbn [fr] in Hf. rewrite (iseek_restores s s1 p Hk Hf).
+    destruct (name_of c); cbn [bind]; intros E; apply IH in E; assumption.
+Qed.
+
+Theorem union_none_restores cs cx p s v s' :
+  iseekable s = true -> parse (CUnion USNone cs) cx p s = Ok (v, s') -> s' = s.
+Proof.
+  intros Hk. cbn [parse]. destruct (union_loop parse cs 0 (push_scope cx) p [] [] s) as [[[[kv cx''] fw] s1]|e q] eqn:E; [cbn [bind]|discriminate].
+  intros E2. injection E2 as _ <-. eapply union_loop_restores; eassumption.
+Qed.
+
+(* with a selector, the stream ends where some recorded member ended when parsed from the start (and on the same buffer) *)
+Lemma union_loop_records cs : forall i cx p acc fw s kv cx' fw' s',
+  iseekable s = true -> union_loop parse cs i cx p acc fw s = Ok (kv, cx', fw', s') ->
+  forall e, In e fw' -> In e fw \/ exists c cxc v s1, In c cs /\ parse c cxc p s = Ok (v, s1) /\ snd e = itell s1.
+Proof.
+  induction cs as [|c t IH]; intros i cx p acc fw s kv cx' fw' s' Hk; cbn [union_loop].
+  - intros E. injection E as _ _ <- _. auto.
+  - pose proof (parse_frame c cx p s s (sb_refl s)) as Hf. destruct (parse c cx p s) as [[v s1]|e0 q] eqn:Ep; [cbn [bind]|discriminate].
+    cbn [fr] in Hf. rewrite (iseek_restores s s1 p Hk Hf).
+    assert (G : forall acc' cxn, union_loop parse t (i + 1) cxn p acc' (fw ++ [(i, name_of c, itell s1)]) s = Ok (kv, cx', fw', s') ->
+                forall e, In e fw' -> In e fw \/ exists c0 cxc v0 s0, In c0 (c :: t) /\ parse c0 cxc p s = Ok (v0, s0) /\ snd e = itell s0).
+    { intros acc' cxn E e Hin. destruct (IH _ _ _ _ _ _ _ _ _ _ Hk E e Hin) as [Hold|(c0 & cxc & v0 & s0 & Hc0 & Ep0 & He)].
+      - apply in_app_or in Hold. destruct Hold as [Hold|[<-|[]]]; [left; exact Hold|].
+        right. exists c, cx, v, s1. split; [left; reflexivity|]. split; [exact Ep|reflexivity].
+      - right. exists c0, cxc, v0, s0. split; [right; exact Hc0|]. split; assumption. }
+    destruct (name_of c); cbn [bind]; apply G.
+Qed.
